@@ -159,6 +159,15 @@ struct VecMon
         }
         if (de < db || de - db > mc)
             violation("C02", "data_range_exceeds_memory_consumption", fmt("%s: data_end()-data_begin() == %zd > memory_consumption() == %zu", who, ssize_t(de - db), mc), op, pre);
+        bool zero_bytes = true;  // every held element occupies no storage at all (all FixedSize spans empty): a null block is fine
+        for (size_t k = 0; k < NF; ++k)
+            if (!(fields[k].kind == 'F' && !m.e.empty() && m.e[0].f[k].empty())) zero_bytes = false;
+        if (n != 0 && !blk && zero_bytes && db == de)
+        {
+            for (size_t i = 0; i < n; ++i)
+                if (!elem_match(m.e[i], G::read(cv[i]))) violation("C01", "value_mismatch", fmt("%s[%zu]: zero-byte element differs from the model", who, i), op, pre);
+            return out().viol_in_case == before;
+        }
         if (n != 0 && !blk)
         {
             violation("C02", "data_outside_allocator_memory", fmt("%s: data_begin() %#zx is not inside a live block of the allocator", who, size_t(db)), op, pre);
@@ -210,7 +219,7 @@ struct VecMon
                     violation("C04", "fields_overlap_or_out_of_order", fmt("%s[%zu] field %zu begins at %#zx before the end %#zx of field %zu", who, i, k, size_t(b), size_t(prev_end), k - 1), op, pre);
                 // C05 tight packing
                 const uintptr_t expect = k == 0 ? align_up(prev_elem_end, amax) : align_up(prev_end, fields[k].align);
-                if (b != expect && (a[k].count != 0 || fields[k].align_declared || true))
+                if (b != expect)
                 {
                     if (k == 0)
                         violation("C05", "element_not_tightly_packed", fmt("%s[%zu]: starts at %#zx, lowest %zu-aligned address after the previous element is %#zx", who, i, size_t(b), amax, size_t(expect)), op, pre);
